@@ -112,6 +112,49 @@ impl Scenario for C10 {
             }
             // local keys for v1 too
         }
+        // valid key material of one kind dressed up to another kind's length: a zero byte in front (the sign
+        // byte of an ASN.1 / BigInteger encoding) or behind, a doubled first byte, the other kind's tag
+        {
+            let mut sc = crate::prng::Rng::new(b.ev_seed()).bytes(48);
+            sc[0] |= 0x80;
+            sc[0] &= 0xbf; // below the group order, top bit set
+            let seed32 = crate::prng::Rng::new(b.ev_seed()).bytes(32);
+            let pk32 = crate::refimpl::ed25519_public_of_seed(&seed32.clone().try_into().unwrap()).unwrap_or(vec![9u8; 32]);
+            let comp = crate::refimpl::p384_public_of_scalar(&sc).unwrap_or(vec![2u8; 49]);
+            for reader in Bk::ALL {
+                let f = reader.family();
+                let cases: Vec<(Artifact, Vec<u8>)> = match f {
+                    3 => vec![
+                        (Artifact::KeySecret, [&[0u8][..], &sc].concat()),
+                        (Artifact::KeySecret, [&sc[..], &[0u8]].concat()),
+                        (Artifact::KeySecret, [&[0u8, 0][..], &sc].concat()),
+                        (Artifact::KeySecret, sc[1..].to_vec()),
+                        (Artifact::KeyPkeSecret, [&[0u8][..], &sc].concat()),
+                        (Artifact::KeyPublic, comp[1..].to_vec()),
+                        (Artifact::KeyPublic, [&comp[..], &[0u8]].concat()),
+                        (Artifact::KeyPublic, [&[0u8][..], &comp].concat()),
+                        (Artifact::KeyLocal, [&[0u8][..], &seed32].concat()),
+                        (Artifact::KeyLocal, seed32[1..].to_vec()),
+                    ],
+                    2 | 4 => vec![
+                        (Artifact::KeySecret, [&[0u8][..], &seed32, &pk32].concat()),
+                        (Artifact::KeySecret, [&seed32[..], &pk32, &[0u8]].concat()),
+                        (Artifact::KeySecret, seed32.clone()),
+                        (Artifact::KeySecret, [&seed32[..], &pk32[..31]].concat()),
+                        (Artifact::KeyPublic, [&[0u8][..], &pk32].concat()),
+                        (Artifact::KeyPublic, [&pk32[..], &[0u8]].concat()),
+                        (Artifact::KeyPublic, pk32[..31].to_vec()),
+                        (Artifact::KeyLocal, [&[0u8][..], &seed32].concat()),
+                        (Artifact::KeyLocal, [&seed32[..], &[0u8]].concat()),
+                    ],
+                    _ => vec![(Artifact::KeyLocal, [&[0u8][..], &seed32].concat()), (Artifact::KeyLocal, [&seed32[..], &[0u8]].concat())],
+                };
+                for (artifact, bytes) in cases {
+                    let text = format!("k{f}{}{}", artifact.header(), b64(&bytes));
+                    b.push(Step::Offer { text: TextRef::Lit { text }, faults: vec![], reader, artifact, expect: Some(false), why: format!("C10:wrong-length-key-accepted:{} bytes of dressed-up key material offered as {}", bytes.len(), artifact.name()) });
+                }
+            }
+        }
         for len in lens {
             if len != 32 {
                 let bytes = crate::prng::Rng::new(b.ev_seed()).bytes(len);
